@@ -40,7 +40,8 @@ EVIDENCE = {
 LE_PROCS = ['gatt_read', 'gatt_long_read', 'gatt_write', 'gatt_discover_services', 'gatt_discover_all', 'gatt_subscribe', 'gatt_indicate', 'pair',
             'coc_connect', 'coc_disconnect', 'coc_write_drain', 'connect_le_pending', 'disconnect_pending', 'hci_command', 'eatt_subscribe', 'encrypt',
             'gatt_notify_then_read', 'remote_features', 'update_parameters_l2cap']
-CLASSIC_PROCS = ['classic_connect_pending', 'classic_remote_features', 'classic_remote_name', 'classic_connect', 'classic_disconnect', 'ertm_transfer', 'rfcomm_start', 'rfcomm_open_dlc', 'rfcomm_transfer', 'sdp_query', 'avdtp_discover']
+CLASSIC_PROCS = ['classic_connect_pending', 'classic_remote_features', 'classic_remote_name', 'classic_connect', 'classic_disconnect', 'ertm_transfer', 'rfcomm_start', 'rfcomm_open_dlc', 'rfcomm_transfer', 'sdp_query', 'avdtp_discover',
+                 'sco_setup', 'sco_disconnect', 'rfcomm_shutdown_drain']
 FAULTS = ['local_disconnect', 'remote_disconnect', 'link_loss_both', 'transport_loss_initiator', 'transport_loss_responder']
 
 
@@ -251,12 +252,54 @@ def _build(sim, case):
             else:
                 dlc = sim.must(mux.open_dlc(1, max_frame_size=64, initial_credits=2), 'dlc')
                 sim.loop.settle()
-                acc[0].sink = lambda d: None
+                cx.dlcs = [dlc, acc[0]]
+                cx.dlc_closed = []
+                for x in cx.dlcs:
+                    x.on('close', lambda x=x: cx.dlc_closed.append(x))
+                if proc == 'rfcomm_shutdown_drain':
+                    # the peer grants no more credits: data stays queued; the session is shut down under it (DISC on DLCI 0)
+                    def go():
+                        dlc.write(bytes(1500))
+                        return [('dlc.drain', dlc.drain()), ('rfcomm.Client.shutdown', client.shutdown())]
+                else:
+                    acc[0].sink = lambda d: None
 
-                def go():
-                    dlc.write(bytes(1500))
-                    return [('dlc.drain', dlc.drain())]
+                    def go():
+                        dlc.write(bytes(1500))
+                        return [('dlc.drain', dlc.drain())]
                 cx.start = go
+    elif proc in ('sco_setup', 'sco_disconnect'):
+        from bumble import hci, hfp
+        params = hfp.ESCO_PARAMETERS[hfp.DefaultCodecParameters.ESCO_CVSD_S1].asdict()
+        d1.on('sco_request', lambda conn, lt: sim.loop.create_task(d1.send_command(
+            hci.HCI_Enhanced_Accept_Synchronous_Connection_Request_Command(bd_addr=conn.peer_address, **params))))
+        cx.sco = [[], []]  # every ScoLink object the devices were given
+        cx.sco_ended = []
+        for i, d in ((0, d0), (1, d1)):
+            def got_sco(link, i=i):
+                cx.sco[i].append(link)
+                link.on('disconnection', lambda *a: cx.sco_ended.append(link))
+            d.on('sco_connection', got_sco)
+
+        async def setup():
+            await d0.send_command(hci.HCI_Enhanced_Setup_Synchronous_Connection_Command(connection_handle=c0.handle, **params))
+        if proc == 'sco_setup':
+            cx.start = lambda: [('send_command(setup synchronous connection)', setup())]
+        else:
+            sim.must(setup(), 'sco setup')
+            sim.loop.drive(lambda: bool(cx.sco[0] and cx.sco[1]), 10.0)
+            if not (cx.sco[0] and cx.sco[1]):
+                raise HarnessError('no SCO link')
+
+            async def link_end(link):
+                # what an audio pump does: run until the link reports its end
+                if link in cx.sco_ended:
+                    return
+                fut = sim.loop.create_future()
+                link.once('disconnection', lambda *a: fut.done() or fut.set_result(None))
+                await fut
+            cx.start = lambda: [('sco_link.disconnect', cx.sco[0][0].disconnect()), ('await end of SCO link (local)', link_end(cx.sco[0][0])),
+                                ('await end of SCO link (peer)', link_end(cx.sco[1][0]))]
     elif proc == 'sdp_query':
         from bumble import core, sdp
         d1.sdp_service_records = {0x10001 + i: [sdp.ServiceAttribute(4, sdp.DataElement.sequence([sdp.DataElement.uuid(core.UUID('1101'))])),
@@ -282,7 +325,7 @@ FAMILY = {'gatt_read': 'gatt', 'gatt_long_read': 'gatt', 'gatt_write': 'gatt', '
           'gatt_subscribe': 'gatt-subscribe', 'gatt_indicate': 'gatt-indicate', 'pair': 'pair', 'coc_connect': 'coc', 'coc_disconnect': 'coc', 'coc_write_drain': 'coc',
           'connect_le_pending': 'connect', 'disconnect_pending': 'disconnect', 'hci_command': 'hci', 'classic_connect': 'classic-l2cap',
           'classic_disconnect': 'classic-l2cap', 'ertm_transfer': 'classic-l2cap', 'rfcomm_start': 'rfcomm', 'rfcomm_open_dlc': 'rfcomm', 'rfcomm_transfer': 'rfcomm',
-          'sdp_query': 'sdp', 'avdtp_discover': 'avdtp', 'eatt_subscribe': 'eatt', 'encrypt': 'pair', 'gatt_notify_then_read': 'gatt',
+          'sdp_query': 'sdp', 'avdtp_discover': 'avdtp', 'sco_setup': 'sco', 'sco_disconnect': 'sco', 'rfcomm_shutdown_drain': 'rfcomm', 'eatt_subscribe': 'eatt', 'encrypt': 'pair', 'gatt_notify_then_read': 'gatt',
           'remote_features': 'hci', 'classic_remote_features': 'hci', 'classic_connect_pending': 'connect', 'classic_remote_name': 'hci', 
           'update_parameters_l2cap': 'le-signalling'}
 
@@ -501,6 +544,29 @@ def _check_tables(sim, cx, case, handles, unreachable):
             sim.violation_once('tables-hd', f'connection-tables-disagree:host-vs-device:{fc}', f'N{i}: host {sorted(hs)}, device {sorted(ds)}')
         if hs != cs:
             sim.violation_once('tables-hc', f'connection-tables-disagree:host-vs-controller:{fc}', f'N{i}: host {sorted(hs)}, controller {sorted(cs)}')
+    # synchronous / isochronous links ride on an ACL connection: they are listed alike on every layer, and none outlives its ACL
+    for i, nd in enumerate(world.nodes):
+        for kind in ('sco_links', 'cis_links'):
+            hs, ds = set(getattr(nd.host, kind)), set(getattr(nd.device, kind))
+            if hs != ds:
+                sim.violation_once(f'tables-hd:{kind}', f'connection-tables-disagree:host-vs-device:{kind}:{fc}', f'N{i}: host {sorted(hs)}, device {sorted(ds)}')
+            for h, link in list(getattr(nd.device, kind).items()):
+                acl = getattr(link, 'acl_connection', None)
+                if acl is not None and nd.device.connections.get(acl.handle) is not acl:
+                    sim.violation_once(f'orphan:{kind}', f'stale-state:device.{kind}:{fam}:{fc}', f'N{i}: link {h:#x} is still listed although its ACL connection {acl.handle:#x} is gone')
+            if i not in unreachable and kind == 'sco_links':
+                cs2 = {l.handle for l in nd.controller.sco_links.values()}
+                if hs != cs2:
+                    sim.violation_once('tables-hc:sco', f'connection-tables-disagree:host-vs-controller:sco_links:{fc}', f'N{i}: host {sorted(hs)}, controller {sorted(cs2)}')
+    for i, links in enumerate(getattr(cx, 'sco', [])):
+        for link in links:
+            if world[i].device.sco_links.get(link.handle) is not link and link not in cx.sco_ended:
+                sim.violation_once('sco-silent', f'link-dropped-without-disconnection-event:sco:{fc}', f'N{i}: SCO link {link.handle:#x} is no longer listed but never reported its disconnection')
+    # an RFCOMM channel does not outlive the session that carried it
+    if getattr(cx, 'dlcs', None) and any(c is None or world[i].device.connections.get(c.handle) is not c for i, c in ((0, cx.c0), (1, cx.c1))):
+        for i, x in enumerate(cx.dlcs):
+            if x not in cx.dlc_closed:
+                sim.violation_once('dlc-open', f'stale-state:rfcomm.dlc-never-closed:{fc}', f'N{i}: DLC {x.dlci} in state {x.state.name} never reported close although the connection is gone')
     # both ends of every link agree on whether it is alive
     reach = {i: cs for i, _, _, cs in sets}
     for (a, ca), (b, cb), label in ((0, cx.c0), (1, cx.c1), 'procedure-link'), ((0, cx.by0), (2, cx.by2), 'bystander-link'):
